@@ -81,6 +81,21 @@ class LoopRecord:
 _uid = itertools.count(1)
 
 
+def _compound_subterms(t, out=None, depth=0):
+    """s-expressions of the applications (with arguments) inside a term, outermost first, a few levels deep"""
+    if out is None:
+        out = []
+    if depth > 6 or len(out) > 60:
+        return out
+    if z3.is_app(t) and t.num_args() > 0:
+        k = t.decl().kind()
+        if k == z3.Z3_OP_UNINTERPRETED:
+            out.append(t.sexpr())
+        for a in t.children():
+            _compound_subterms(a, out, depth + 1)
+    return out
+
+
 def fresh(base):
     return z3.Const("%s!%d" % (base, next(_uid)), V)
 
@@ -834,9 +849,61 @@ class Exec:
         res += outs
         return res
 
+    def syntactic_writes(self, s):
+        """names a loop body (re)binds or mutates -- they are havocked at loop entry, so their entry values do not matter"""
+        cached = getattr(s, "_pyvc_writes", None)
+        if cached is not None:
+            return cached
+        out = set()
+        for n in ast.walk(s):
+            if isinstance(n, ast.Name) and isinstance(n.ctx, ast.Store):
+                out.add(n.id)
+            elif isinstance(n, ast.Call) and isinstance(n.func, ast.Attribute) and n.func.attr in MUTATORS:
+                b = n.func.value
+                while isinstance(b, (ast.Subscript, ast.Attribute)):
+                    b = b.value
+                if isinstance(b, ast.Name):
+                    out.add(b.id)
+            elif isinstance(n, (ast.Subscript, ast.Attribute)) and isinstance(n.ctx, (ast.Store, ast.Del)):
+                b = n.value
+                while isinstance(b, (ast.Subscript, ast.Attribute)):
+                    b = b.value
+                if isinstance(b, ast.Name):
+                    out.add(b.id)
+        s._pyvc_writes = out
+        return out
+
+    def state_sig(self, xs, p, skip=()):
+        """signature of everything a loop body can depend on: the iterated value, all variables / tables / fields, and the path
+        conditions that talk about a compound term occurring in them (used to share loop summaries between paths)"""
+        def sx(v):
+            try:
+                return asV(v).sexpr()
+            except TypeError:
+                return repr(v)
+        parts = [("iter", xs.sexpr())]
+        parts += sorted(("e:" + k, sx(v)) for k, v in p.env.items() if k not in skip)
+        parts += sorted(("g:" + k, sx(v)) for k, v in p.glob.items())
+        parts += sorted(("h:%s.%s" % k, sx(v)) for k, v in p.heap.items())
+        blob = "\n".join(x[1] for x in parts)
+        rel = []
+        for c in p.conds:
+            cs = c.sexpr()
+            for sub in _compound_subterms(c):
+                if sub in blob:
+                    rel.append(cs)
+                    break
+        return (tuple(parts), tuple(sorted(set(rel))), self.try_depth)
+
     def summarised_loop(self, s, xs, p):
         if self.loop_hook is not None:
             return self.loop_hook(self, s, xs, p)
+        cache = self.ctx.loop_cache
+        key = None
+        if self.side == "real" and self.writes is None:
+            key = (id(s), self.state_sig(xs, p, self.syntactic_writes(s) - {"self"}))
+            if key in cache:
+                return self.after_loop(cache[key], p)
         rec = LoopRecord(next(_uid))
         rec.node, rec.iter = s, xs
         rec.written = self.dry_written(s, xs, p)
@@ -853,6 +920,8 @@ class Exec:
         q.conds.append(pred("elem_of", xs, rec.elem))
         q.conds.extend(self.ctx.elem_facts(xs, rec.elem))
         rec.body = self.run_body(s, rec.elem, q)
+        if key is not None:
+            cache[key] = rec
         return self.after_loop(rec, p)
 
     def after_loop(self, rec, p):
